@@ -203,12 +203,36 @@ def root_name(fl, op):
     return '|'.join(os_)[:80]
 
 
+def return_carriers(body):
+    """locals whose value is handed to the return place by plain moves only (`_0 = move t`, `t = move u`, ...): where a spliced
+    helper or closure left the value it returned"""
+    carriers = {0}
+    changed = True
+    while changed:
+        changed = False
+        for blk in body.blocks:
+            for st in blk['stmts']:
+                if st['dst']['l'] in carriers and not st['dst']['proj'] and st['rv']['k'] == 'use':
+                    op = st['rv']['ops'][0]
+                    if op['k'] != 'const' and not op['p']['proj'] and op['p']['l'] not in carriers:
+                        l = op['p']['l']
+                        # the carried local must feed nothing but return carriers
+                        uses = [s2 for b2 in body.blocks for s2 in b2['stmts'] if s2['rv']['k'] == 'use' and s2['rv']['ops'][0]['k'] != 'const'
+                                and s2['rv']['ops'][0]['p']['l'] == l and not s2['rv']['ops'][0]['p']['proj']]
+                        if all(u['dst']['l'] in carriers and not u['dst']['proj'] for u in uses) and not (1 <= l <= body.argc):
+                            carriers.add(l)
+                            changed = True
+    return carriers
+
+
 def ok_assign_blocks(body, variant='Ok'):
-    """Blocks that assign `_0 = Result::<variant>{..}` (or Option::Some...)."""
+    """Blocks that construct the value returned as `Result::<variant>{..}` (or Option::Some...): assigned to the return place
+    directly, or to a temporary that is only moved on into it (the shape a spliced helper / closure leaves)."""
     out = []
+    carriers = return_carriers(body)
     for bi, blk in enumerate(body.blocks):
         for st in blk['stmts']:
-            if st['dst']['l'] == 0 and not st['dst']['proj'] and st['rv']['k'] == 'agg' \
+            if st['dst']['l'] in carriers and not st['dst']['proj'] and st['rv']['k'] == 'agg' \
                and st['rv'].get('ak') == 'adt' and st['rv'].get('vname') == variant:
                 out.append(bi)
     return out
